@@ -166,6 +166,98 @@ def worker_layer(ctx):
         ctx.violation(text, rep)
 
 
+def real_gthread_bodies():
+    """The REAL ThreadWorker.run() on a loopback listener, ONE kept-alive connection: bodies that arrive after their head, in
+    pieces with pauses, under both framings and every way of reading wsgi.input; a body left unread followed by one more
+    request.  The application answers with the SHA-1 and the length of what wsgi.input gave it.  -> list of failures"""
+    import hashlib
+    import time
+    import lib_gthread_real as G
+
+    def app(environ, start_response):
+        inp = environ["wsgi.input"]
+        how = environ["PATH_INFO"]
+        try:
+            if how == "/read-all":
+                data = inp.read()
+            elif how == "/read-n":
+                data = b""
+                while True:
+                    blk = inp.read(700)
+                    if not blk:
+                        break
+                    data += blk
+            elif how == "/readline":
+                data = b""
+                while True:
+                    ln = inp.readline()
+                    if not ln:
+                        break
+                    data += ln
+            elif how == "/iter":
+                data = b"".join(inp)
+            else:
+                data = b""
+            body = ("%s %s %d" % (how, hashlib.sha1(data).hexdigest(), len(data))).encode()
+            start_response("200 OK", [("Content-Length", str(len(body)))])
+        except Exception as e:                     # what wsgi.input raised is part of the finding
+            body = ("wsgi.input raised %s: %s" % (type(e).__name__, e)).encode()
+            start_response("500 Input Error", [("Content-Length", str(len(body)))])
+        return [body]
+    fails = []
+    lines_body = b"".join(b"line %04d of the body\n" % i for i in range(140))
+    blob = bytes((i * 7 + 3) % 251 for i in range(3011))
+    steps = [
+        ("GET", "/first", b"", False),
+        ("POST", "/read-all", blob, False),
+        ("POST", "/read-n", blob, True),
+        ("POST", "/readline", lines_body, False),
+        ("POST", "/iter", lines_body, True),
+        ("POST", "/unread", blob[:2000], False),
+        ("POST", "/unread", blob[:1500], True),
+        ("GET", "/last", b"", False),
+    ]
+    with G.RealGthread(app, threads=2, keepalive=5) as srv:
+        c = srv.connect()
+        try:
+            for k, (method, path, body, chunked) in enumerate(steps):
+                what = "request %d of the connection (%s %s, %s body of %d bytes sent after its head in pieces)" % (
+                    k + 1, method, path, "chunked" if chunked else "Content-Length", len(body))
+                head = "%s %s HTTP/1.1\r\nHost: x\r\n" % (method, path)
+                if method == "POST":
+                    head += "Transfer-Encoding: chunked\r\n" if chunked else "Content-Length: %d\r\n" % len(body)
+                try:
+                    c.sendall(head.encode() + b"\r\n")
+                    if method == "POST":
+                        time.sleep(0.25)
+                        pieces = [body[i:i + 997] for i in range(0, len(body), 997)]
+                        for pc in pieces:
+                            c.sendall((b"%x\r\n" % len(pc)) + pc + b"\r\n" if chunked else pc)
+                            time.sleep(0.08)
+                        if chunked:
+                            c.sendall(b"0\r\n\r\n")
+                except OSError as e:
+                    fails.append("%s: the worker had closed the connection (%s)" % (what, type(e).__name__))
+                    break
+                status, hdr, got, complete, err = G.read_response(c, 8)
+                seen = b"" if path == "/unread" or method == "GET" else body
+                if path in ("/first", "/last", "/unread"):
+                    want = ("%s %s %d" % (path, hashlib.sha1(b"").hexdigest(), 0)).encode()
+                else:
+                    want = ("%s %s %d" % (path, hashlib.sha1(seen).hexdigest(), len(seen))).encode()
+                if status != 200 or not complete or got != want:
+                    fails.append("%s: expected 200 with the digest of exactly the body, the client received status %r body %r%s"
+                                 % (what, status, got[:120], (" (%s)" % err) if err else ""))
+                    break
+                if hdr.get("connection", "").lower() == "close":
+                    fails.append("%s: answered, but the worker announced Connection: close on a keep-alive connection" % what)
+                    break
+                time.sleep(0.15)
+        finally:
+            c.close()
+    return fails
+
+
 def check_case(case):
     """The property on the real code.  Returns a failure description or None."""
     spec = lp.make_spec()
@@ -245,6 +337,12 @@ def run(ctx):
         ctx.violation(f, {"kind": "c07", "stream": case["stream"].decode("latin-1"), "chunks": [c.decode("latin-1") for c in case["chunks"]],
                           "body": case["body"].decode("latin-1"), "prog": case["prog"], "failure": f})
     worker_layer(ctx)
+    rf = real_gthread_bodies()
+    ctx.count_case(("real-gthread-bodies",), True)
+    ctx.hist("worker_layer", "real gthread run(): 8 requests on one kept-alive connection")
+    ctx.log("real gthread run(): bodies sent after their heads on one kept-alive connection: %d failures" % len(rf))
+    for f in rf[:2]:
+        ctx.violation("real gthread worker: " + f, {"kind": "c07-real-gthread"})
     bad = ctx.correspond("body", lp.HEADER, model_cases, shard=60)
     if bad:
         i, m, im = bad[0]
@@ -267,6 +365,10 @@ def run(ctx):
 
 
 def replay(rep):
+    if rep.get("kind") == "c07-real-gthread":
+        fs = real_gthread_bodies()
+        print("failures:", fs)
+        return 1 if fs else 0
     if rep.get("kind") == "c07-worker":
         class C:
             rng = __import__("random").Random(1)
